@@ -82,6 +82,15 @@ func drainMergeReput(run *Runner, g *Gen, class string) bool {
 // runC15: sequential histories around Merge, one sub-class per structure kind so that the list finding
 // cannot hide a KV / set / sorted-set regression.
 func runC15(c *CaseCtx) {
+	if c.Case%16 == 9 {
+		kind := []string{"kv", "set", "zset"}[c.Rng.Intn(3)]
+		modes := []int{0}
+		if kind == "kv" {
+			modes = []int{0, 1}
+		}
+		largeHistory(c, "merge-"+kind, largeOpts{Kind: kind, Modes: modes, Merge: true})
+		return
+	}
 	r := c.Rng
 	kind := []string{"kv", "kv", "set", "zset", "list", "mixed"}[c.Case%6]
 	cfg := randCfg(r, []int{0, 1}, 96, 400)
